@@ -48,7 +48,15 @@ func (t *Template) FindTranslation(channel *Channel, locales []i18n.Locale) *Tem
 		return nil
 	}
 
-	match := i18n.NewBCP47Matcher(candidateLocales...).ForLocales(locales...)
+	// an environment without any languages has no default locale - we can only match against actual locales
+	actualLocales := make([]i18n.Locale, 0, len(locales))
+	for _, l := range locales {
+		if l != i18n.NilLocale {
+			actualLocales = append(actualLocales, l)
+		}
+	}
+
+	match := i18n.NewBCP47Matcher(candidateLocales...).ForLocales(actualLocales...)
 	return candidates[match]
 }
 
